@@ -29,11 +29,23 @@ def switch_jobs(tier):
 SWITCH_REDIR = dict(_c02.REDIR)
 SWITCH_REDIR["(*github.com/sourcenetwork/defradb/internal/db.DB).loadSchema"] = "wLoadSchemaNoop"
 
+PARSER_REDIR = {
+    "github.com/sourcenetwork/defradb/internal/request/graphql/schema.NewSchemaManager": "gNewSchemaManager",
+    "(*github.com/sourcenetwork/defradb/internal/request/graphql/schema.Generator).Generate": "gGenerate",
+}
+
+
+def parser_jobs(tier):
+    return [{"id": "O3.query-types-follow-the-commit", "func": "VerifH_C19_SetSchemaOnCommit", "conf": {}, "_obligation": "O3", "_covers": ["committed", "discarded"]}]
+
+
 PROPERTY = {
     "id": "C19",
     "suites": [dict(_c02.SUITE, name="unknownfield", jobs=jobs),
                dict(_c02.SUITE, name="switch", jobs=switch_jobs, redirects=SWITCH_REDIR,
-                    files=["zz_verif_env.go", "zz_verif_merge.go", "zz_verif_c19switch.go"])],
+                    files=["zz_verif_env.go", "zz_verif_merge.go", "zz_verif_c19switch.go"]),
+               {"name": "parser", "pkg": "internal/request/graphql", "files": ["zz_verif_c19parser.go"], "common": ["intrinsics", "kvmodel"], "jobs": parser_jobs,
+                "redirects": PARSER_REDIR}],
     "bounds": dict(_c02.PROPERTY["bounds"], **{"active-version switching (O2)": "linear chains of 2-3 (thorough 4) versions, every sequence of 3 (thorough 4) switches"}),
     "assumptions": _c02.PROPERTY["assumptions"] + ["the receiver's collection definition lacks the field carried by every commit"],
     "outside_claim": ["schema patching itself (patchSchema / updateSchema: JSON patch, validation), lens migrations, query results across versions (GraphQL, planner); version chains with branches"],
